@@ -303,13 +303,29 @@ class AsyncDatagramServer(_transports.AsyncBaseTransport, Generic[_T_Request, _T
         # test____serve_forever____too_many_datagrams_while_request_handle_is_performed
         default_context.copy().run(
             task_group.start_soon,
-            self.__client_coroutine,
+            self.__restart_client_coroutine,
             datagram_received_cb,
             client_ctx,
             client_data,
             task_group,
             default_context,
         )
+
+    async def __restart_client_coroutine(
+        self,
+        datagram_received_cb: Callable[
+            [DatagramClientContext[_T_Response, _T_Address]], AsyncGenerator[float | None, _T_Request]
+        ],
+        client_ctx: DatagramClientContext[_T_Response, _T_Address],
+        client_data: _ClientData,
+        task_group: TaskGroup,
+        default_context: contextvars.Context,
+    ) -> None:
+        # With asyncio.eager_task_factory, this coroutine is started within the "finally" clause of the previous one.
+        # If the request handlers never yield, there would be one nested call per queued datagram (RecursionError).
+        # Give the control back to the event loop first, so the previous task can finish.
+        await client_data.backend.coro_yield()
+        await self.__client_coroutine(datagram_received_cb, client_ctx, client_data, task_group, default_context)
 
     @staticmethod
     def __parse_datagram(
